@@ -84,6 +84,10 @@ def check_program(name, slots, program, w, wd, sieve, stats, files):
     expansions = list(R4.EXPANSIONS)
     ref_table, err, _ = assemble_with_labels(R4.render_primitive(prim), w, wd, 'ref')
     if ref_table is None:
+        # the inlined program is rejected (e.g. a label declared twice): the macro program must not produce a label table either
+        table, err2, _ = assemble_with_labels(texts, w, wd, 'orig')
+        if table is not None:
+            bad('a label table was written for a program whose inlining is rejected', err, f'{len(table)} entries')
         return
     table, err, dbg = assemble_with_labels(texts, w, wd, 'orig')
     stats['programs'] += 1
